@@ -34,6 +34,7 @@ type specEnv struct {
 	depth int
 	nq    *int
 	what  string
+	atCall *ssa.Function // the clause is a callee's contract assumed at a call site (its go statements did not run here)
 	lenient bool // undefined locals evaluate to arbitrary values (ensures at early returns)
 }
 
@@ -809,13 +810,17 @@ func (se *specEnv) call(n *ast.CallExpr) specVal {
 			}
 			ki, _ := strconv.Atoi(k.Value)
 			ii, _ := strconv.Atoi(i.Value)
-			if ki >= 1 && ki <= len(se.st.goArgs) && ii >= 1 && ii <= len(se.st.goArgs[ki-1]) {
+			if se.atCall == nil && ki >= 1 && ki <= len(se.st.goArgs) && ii >= 1 && ii <= len(se.st.goArgs[ki-1]) {
 				return se.st.goArgs[ki-1][ii-1]
+			}
+			ownFn := se.x.topFn
+			if se.atCall != nil {
+				ownFn = se.atCall // at a call site the callee's goroutine arguments are not visible: arbitrary
 			}
 			// this path did not execute that go statement: an arbitrary value of the parameter's type
 			// (the clause can only be proved here if it does not depend on it)
 			var gos []*ssa.Go
-			for _, b := range se.x.topFn.Blocks {
+			for _, b := range ownFn.Blocks {
 				for _, in := range b.Instrs {
 					if g, ok := in.(*ssa.Go); ok {
 						gos = append(gos, g)
